@@ -11,6 +11,7 @@ import Driver.SmBuilder
 import Driver.Cache
 import Driver.Comp
 import Driver.Lex
+import Driver.Macro
 open Lean Drv
 
 /-- dispatch on the prefix of "op" -/
@@ -30,6 +31,7 @@ def dispatch (j : Json) : R Json := do
   | "cache" => CacheD.handle op j
   | "comp" => CompD.handle op j
   | "lex" => LexD.handle op j
+  | "macro" => MacroD.handle op j
   | _ => throw s!"unknown op {op}"
 
 partial def loop (h : IO.FS.Stream) (out : IO.FS.Stream) : IO Unit := do
